@@ -67,9 +67,9 @@ let () =
   (try
     while true do
       let line = input_line stdin in
-      let zs = List.map z_of_token (split_ws line) in
+      let zs = List.rev (List.rev_map z_of_token (split_ws line)) in
       let res = f zs in
-      Buffer.add_string out (String.concat " " (List.map token_of_z res));
+      Buffer.add_string out (String.concat " " (List.rev (List.rev_map token_of_z res)));
       Buffer.add_char out '\n';
       if Buffer.length out > (1 lsl 16) then (print_string (Buffer.contents out); Buffer.clear out)
     done
